@@ -211,7 +211,17 @@ class C01(Prop):
     SOURCES = SOURCES
     NEEDS_EXT = True
     LEAN_MODULES = ["Proofs.C01"]
-    THEOREMS = []
+    THEOREMS = [
+        "PylifeVerif.C01.newTurns_chunk_independent",
+        "PylifeVerif.C01.fourPoint_chunk_independent",
+        "PylifeVerif.C01.fkm_chunk_independent",
+        "PylifeVerif.C01.chunkLocalIndex_correct",
+    ]
+    PARTIAL = {}
+    ASSUMPTIONS = [
+        "samples are modelled as integers: exact for integer-valued / dyadic doubles; rounding of a-b for arbitrary doubles and underflow of diffs[:-1]*diffs[1:] in find_turns are not modelled (the oracle additionally runs the chunking relation on non-dyadic doubles)",
+        "numpy array glue of process() (concatenate, uintp casts) is covered by the correspondence only",
+    ]
     RULE = ("case = (detector, integer signal, partition into non-empty chunks); quick: all signals over 4 values up to "
             "length 5 x all partitions + seeded random signals (<= 400 samples, 5 shapes, <= 40 chunks); non-trivial = "
             "at least one recorded cycle and more than one chunk; distinct by (detector, signal, partition)")
@@ -325,7 +335,19 @@ class C02(Prop):
     SOURCES = SOURCES
     NEEDS_EXT = True
     LEAN_MODULES = ["Proofs.C02"]
-    THEOREMS = []
+    THEOREMS = [
+        "PylifeVerif.C02.findTurns_eq_reversals",
+        "PylifeVerif.C02.fourPoint_eq_spec",
+        "PylifeVerif.C02.fourPoint_partition",
+        "PylifeVerif.C02.fourPoint_index_valid",
+        "PylifeVerif.C02.fkm_eq_spec",
+        "PylifeVerif.C02.fkm_partition",
+    ]
+    PARTIAL = {}
+    ASSUMPTIONS = [
+        "samples are modelled as integers (see C01)",
+        "the Clormann-Seeger rule is stated without the two 'not a reversal' guards of the 1986 listing because its input is a reversal sequence (DESIGN C02)",
+    ]
     RULE = ("case = (detector, integer signal of length >= 2) fed in one piece; exhaustive small scope + seeded random signals "
             "with many ties; model's spec functions (turning points, textbook four-point rule, Clormann-Seeger HCM) are "
             "compared with the implementation's output; non-trivial = at least one cycle; distinct by (detector, signal)")
@@ -448,7 +470,20 @@ class C03(Prop):
     SOURCES = SOURCES
     NEEDS_EXT = True
     LEAN_MODULES = ["Proofs.C03"]
-    THEOREMS = []
+    THEOREMS = [
+        "PylifeVerif.C03.findTurns_neg",
+        "PylifeVerif.C03.findTurns_affine",
+        "PylifeVerif.C03.fourPoint_affine",
+        "PylifeVerif.C03.fkm_neg",
+        "PylifeVerif.C03.findTurns_insert_nonreversal",
+        "PylifeVerif.C03.findTurnsNan_reindex",
+        "PylifeVerif.C03.findTurnsNan_index_valid",
+    ]
+    PARTIAL = {}
+    ASSUMPTIONS = [
+        "samples are modelled as integers (see C01); NaN samples as `none`",
+        "pandas Series -> ndarray conversion is glue, covered by the oracle on four index types",
+    ]
     RULE = ("case = integer signal (+ NaN positions / refinement seed / affine map); correspondence on find_turns (model scan, "
             "model numpy transcription, implementation) incl. NaN re-indexing; oracle: refinement by non-reversal samples, "
             "negation, positive affine maps, Series index types; non-trivial = at least one turning point")
